@@ -308,7 +308,8 @@ def rule_r3(chk, p, t):
         loops = [n for n in walk_no_nested(nsa.node) if isinstance(n, ast.For)]
         its = [unparse(l.iter) for l in loops]
         if its != [f"range(2, {deg} + 1)", f"range({order} + 1)"]:
-            bad.append(f"loops {its}")
+            # another loop nest may visit the same (n, m) pairs; equality of iteration spaces is not decided here
+            raise Undecided(f"nonSphericalAcceleration: loop nest {its} is not the recognised `for n in 2..degree: for m in 0..order` form", nsa.node)
         rets = [n for n in walk_no_nested(nsa.node) if isinstance(n, ast.Return)]
         if not rets or canon(rets[0].value) != canon(ast.parse(f"acceleration * {mu} / {rad} ** 2", mode="eval").body):
             bad.append(f"scaling `{unparse(rets[0].value) if rets else None}`")
@@ -437,7 +438,7 @@ def rule_r4(chk, p, t):
             bad.append("normalised coordinates")
         loops = [unparse(n.iter) for n in walk_no_nested(h.node) if isinstance(n, ast.For)]
         if loops != [f"range({h.params[3]} + 1)", f"range(2, {h.params[2]} + 1)"]:
-            bad.append(f"loops {loops}")
+            raise Undecided(f"getNonSphericalHarmonics: loop nest {loops} is not the recognised `for m in 0..order: for n in 2..degree` form (iteration-space equivalence is not decided)", h.node)
         if bad:
             r.violation(h.qualname, "cunningham:" + ";".join(bad), "Cunningham recursion differs from Montenbruck eq. 3.29-3.31: " + "; ".join(bad), h.loc())
         else:
@@ -469,7 +470,7 @@ def rule_r4(chk, p, t):
             bad.append("accumulation of (x, y, z) partials")
         conds = [unparse(n.test) for n in walk_no_nested(nsa.node) if isinstance(n, ast.If)]
         if conds != ["m > n", "m == 0", "n >= m"]:
-            bad.append(f"case split {conds}")
+            raise Undecided(f"nonSphericalAcceleration: case split {conds} is not the recognised (m > n / m == 0 / n >= m) form", nsa.node)
         if bad:
             r.violation(nsa.qualname, "partials:" + ";".join(bad), "geopotential acceleration partials differ from Montenbruck eq. 3.32-3.33: " + "; ".join(bad), nsa.loc())
         else:
